@@ -7,6 +7,7 @@ import JaqVerif.Val.Arith
 import JaqVerif.C09.Consumers
 import JaqVerif.Lemmas.C09Repr
 import JaqVerif.Lemmas.C09Ops
+import JaqVerif.Lemmas.C09Ieee
 
 namespace Jaq.C09
 open Jaq
@@ -343,6 +344,100 @@ example : sliceArr [.null, .bool true] (.num (.big (-36893488147419103232))) (.n
 example : (range 5 (.int 9223372036854775806) (.big 9223372036854775810) (.int 2)).map Num.intVal?
     = [some 9223372036854775806, some 9223372036854775808] := by decide
 example : limit (.big 2) [1, 2, 3] = [1, 2] := by decide
+
+
+/-! ## Round 2 — the IEEE side: "otherwise the IEEE-754 double result of the converted operands"
+
+The shared float model `Jaq.F64` computes every result with one rounding step `F64.roundRat`.
+`RoundsToNearestEven neg num den r` (Lemmas/C09Ieee.lean) is the explicit rational specification:
+`r` is finite, has the sign `neg`, **no finite double is closer to `num/den`** (a finite `g` has the
+value `magUnits g · 2^-1074`; distances are compared after multiplying with `den · 2^1074`), and on
+a tie the significand of `r` is even.  The model is compared bit for bit with the hardware on every
+run, which ties these theorems to the code. -/
+
+/-- **the rounding step is correct rounding**: infinity of the requested sign, or nearest-even -/
+theorem roundRat_correct (neg : Bool) (num den : Nat) (hn : 0 < num) (hd : 0 < den) :
+    F64.roundRat neg num den = F64.inf neg ∨ RoundsToNearestEven neg num den (F64.roundRat neg num den) :=
+  roundRat_correct_lem neg num den hn hd
+
+/-- `i as f64` / `BigInt::to_f64`: round-to-nearest-even of the integer (overflow gives infinity) -/
+theorem ofInt_correctly_rounded (i : Int) (hi : i ≠ 0) :
+    F64.ofInt i = F64.inf (decide (i < 0)) ∨
+    RoundsToNearestEven (decide (i < 0)) i.natAbs 1 (F64.ofInt i) := ofInt_lem i hi
+
+/-- `+` on finite doubles: the exact sum (`units` = value in units of `2^-1074`) correctly rounded;
+an exact zero sum is `-0` only if both operands are negative, else `+0` -/
+theorem add_correctly_rounded {a b : UInt64} (ha : F64.isFinite a = true) (hb : F64.isFinite b = true) :
+    (F64.units a + F64.units b = 0 → F64.add a b = F64.zero (F64.signBit a && F64.signBit b)) ∧
+    (F64.units a + F64.units b ≠ 0 →
+      F64.add a b = F64.inf (decide (F64.units a + F64.units b < 0)) ∨
+      RoundsToNearestEven (decide (F64.units a + F64.units b < 0)) (F64.units a + F64.units b).natAbs
+        (2 ^ 1074) (F64.add a b)) := add_lem ha hb
+
+/-- `-` is `+` of the negated right operand (negation flips the sign bit only) -/
+theorem sub_is_add_neg (a b : UInt64) (hb : F64.isNaN b = false) :
+    F64.sub a b = F64.add a (F64.neg b) := by
+  simp only [F64.sub, hb, Bool.false_eq_true, if_false]
+
+/-- `*` on finite non-zero doubles: the exact product correctly rounded, sign = xor of the signs -/
+theorem mul_correctly_rounded {a b : UInt64} (ha : F64.isFinite a = true) (hb : F64.isFinite b = true)
+    (pa : 0 < F64.magUnits a) (pb : 0 < F64.magUnits b) :
+    F64.mul a b = F64.inf (F64.signBit a != F64.signBit b) ∨
+    RoundsToNearestEven (F64.signBit a != F64.signBit b) (F64.magUnits a * F64.magUnits b) (2 ^ 2148)
+      (F64.mul a b) := mul_lem ha hb pa pb
+
+/-- `/` on finite non-zero doubles: the exact quotient correctly rounded -/
+theorem div_correctly_rounded {a b : UInt64} (ha : F64.isFinite a = true) (hb : F64.isFinite b = true)
+    (pa : 0 < F64.magUnits a) (pb : 0 < F64.magUnits b) :
+    F64.div a b = F64.inf (F64.signBit a != F64.signBit b) ∨
+    RoundsToNearestEven (F64.signBit a != F64.signBit b) (F64.magUnits a) (F64.magUnits b) (F64.div a b) :=
+  div_lem ha hb pa pb
+
+/-- the special operands of `+ * /` as IEEE 754 has them: NaN propagates, `∞ − ∞`, `0 · ∞`, `∞ / ∞`,
+`0 / 0` are NaN, `x / 0` is a signed infinity, `x / ∞` and `0 / x` a signed zero -/
+theorem ieee_special_cases (a b : UInt64) :
+    (F64.isNaN a = true ∨ F64.isNaN b = true →
+      F64.add a b = F64.nan ∧ F64.mul a b = F64.nan ∧ F64.div a b = F64.nan ∧ F64.rem a b = F64.nan) ∧
+    (F64.isNaN a = false → F64.isNaN b = false →
+      (F64.isInf a = true → F64.isInf b = true → F64.signBit a ≠ F64.signBit b → F64.add a b = F64.nan) ∧
+      (F64.isInf a = true → F64.isZero b = true → F64.mul a b = F64.nan) ∧
+      (F64.isInf a = true → F64.isInf b = true → F64.div a b = F64.nan) ∧
+      (F64.isInf a = false → F64.isInf b = false → F64.isZero a = true → F64.isZero b = true → F64.div a b = F64.nan) ∧
+      (F64.isInf a = false → F64.isInf b = false → F64.isZero a = false → F64.isZero b = true →
+        F64.div a b = F64.inf (F64.signBit a != F64.signBit b)) ∧
+      (F64.isInf a = false → F64.isInf b = true → F64.div a b = F64.zero (F64.signBit a != F64.signBit b)) ∧
+      (F64.isZero b = true → F64.rem a b = F64.nan) ∧ (F64.isInf a = true → F64.rem a b = F64.nan)) := by
+  refine ⟨fun h => ?_, fun na nb => ⟨?_, ?_, ?_, ?_, ?_, ?_, ?_, ?_⟩⟩
+  · rcases h with h | h <;> simp [F64.add, F64.mul, F64.div, F64.rem, h]
+  · intro ia ib hs; simp [F64.add, na, nb, ia, ib, hs]
+  · intro ia zb; simp [F64.mul, na, nb, ia, zb]
+  · intro ia ib; simp [F64.div, na, nb, ia, ib]
+  · intro ia ib za zb; simp [F64.div, na, nb, ia, ib, za, zb]
+  · intro ia ib za zb; simp [F64.div, na, nb, ia, ib, za, zb]
+  · intro ia ib; simp [F64.div, na, nb, ia, ib]
+  · intro zb; simp [F64.rem, na, nb, zb]
+  · intro ia; simp [F64.rem, na, nb, ia]
+
+/-- `%` on finite doubles with a non-zero divisor is C `fmod`: the remainder of the exact magnitudes,
+sign of the dividend.  PARTIAL: that the rounding step applied to this remainder is the identity
+(the remainder is representable) is validated by the bit-for-bit correspondence, not proved. -/
+theorem rem_is_fmod_partial {a b : UInt64} (ha : F64.isFinite a = true) (hb : F64.isFinite b = true)
+    (pb : 0 < F64.magUnits b) :
+    (F64.magUnits a % F64.magUnits b = 0 → F64.rem a b = F64.zero (F64.signBit a)) ∧
+    (F64.magUnits a % F64.magUnits b ≠ 0 →
+      F64.rem a b = F64.roundRat (F64.signBit a) (F64.magUnits a % F64.magUnits b) (2 ^ 1074)) :=
+  rem_lem ha hb pb
+
+-- not proved (kept visible): the overflow threshold in closed form,
+--   `F64.roundRat neg num den = F64.inf neg ↔ den * (2^1025 - 2^971) ≤ 2 * num`
+-- (`roundRat_correct` says "infinity or nearest-even"; the case split is by `s·2^52 + q ≥ 2047·2^52`
+-- of `roundRat_shape`), and exactness of `F64.rem` (see `rem_is_fmod_partial`).
+
+/-- the hypotheses are met by ordinary operands: `1/3` -/
+example : F64.isFinite (F64.ofInt 1) = true ∧ F64.isFinite (F64.ofInt 3) = true ∧
+    F64.isZero (F64.ofInt 1) = false ∧ F64.isZero (F64.ofInt 3) = false := by decide
+example : F64.roundRat false 1 3 = F64.inf false ∨ RoundsToNearestEven false 1 3 (F64.roundRat false 1 3) :=
+  roundRat_correct false 1 3 (by decide) (by decide)
 
 /-! ### the non-numeric cases of the operators (manual, "Arithmetic operators") -/
 
